@@ -189,6 +189,16 @@ impl StdRun {
         StdRun { sb, direct: Stdfs::new(), wrapped: Vfs::stdfs(), use_wrapped, home0 }
     }
     pub fn step(&self, op: &str) -> Result<String, ()> {
+        // rawlink:<link>:<target text> - a link made behind the crate's back, with whatever target text (relative to the link's directory)
+        if let Some(rest) = op.strip_prefix("rawlink:") {
+            let f: Vec<&str> = rest.split(':').collect();
+            let link = format!("{}{}", self.sb.to_str().unwrap(), crate::unhex_s(f[0]));
+            let text = crate::unhex_s(f.get(1).copied().unwrap_or(""));
+            return Ok(match std::os::unix::fs::symlink(&text, &link) {
+                Ok(_) => "ok".into(),
+                Err(_) => "E:raw".into(),
+            });
+        }
         let op2 = to_sandbox(&self.sb, op);
         let r = std::panic::catch_unwind(std::panic::AssertUnwindSafe(|| {
             if self.use_wrapped {
